@@ -24,7 +24,7 @@ LEVEL = "exploration"
 RULE = ("scenario = 1..3 concurrent clients (real send_initialize with a generated supported list, or a raw client) x requested version strata "
         "(each supported; supported +-1 day/month/year; any well-formed date 1925..2125; ill-formed strings; non-strings; absent) x network "
         "latencies; non-trivial = at least one requested version outside the server's supported list, or >= 2 handshakes interleaved")
-PROBES = ["response_queued_while_other_handshake_handled", "requested_unsupported_wellformed", "requested_illformed", "requested_nonstring", "requested_absent", "handshakes_interleaved",
+PROBES = ["retry_after_client_timeout", "response_queued_while_other_handshake_handled", "requested_unsupported_wellformed", "requested_illformed", "requested_nonstring", "requested_absent", "handshakes_interleaved",
           "real_client_mismatch", "real_client_counter_proposal", "supported_echoed"]
 TIERS = {"quick": {"runs": 20000, "wall": 45.0}, "thorough": {"runs": 1500000, "wall": 560.0}}
 ASSUMPTIONS = ["messages cross the in-memory network serialised (model_dump_json(exclude_none)) and re-parsed (parse_message), as over a real transport"]
@@ -60,6 +60,10 @@ def generate(rng: random.Random, tier: str) -> dict:
             universe = from_supported + ["2026-01-01", "2025-06-17", "1999-12-31", "v1"]
             c["supported"] = rng.sample(universe, rng.choice([1, 2, 3]))
             c["preferred"] = rng.choice([None, None, c["supported"][-1]])
+            if rng.random() < 0.25:
+                # the first attempt times out on the client (slow network), the answer arrives late; then a retry on the same streams
+                c["retry"] = {"supported": rng.sample(from_supported, rng.choice([1, 2, 3])), "preferred": rng.choice([None, "2024-11-05", "2025-03-26"])}
+                c["net"] = rng.choice([8, 20])
         else:
             r = rng.random()
             if r < 0.2:
@@ -89,6 +93,8 @@ def simplify(scn):
             cc = copy.deepcopy(scn); cc["clients"][i]["second"] = False; yield cc
         if c.get("info"):
             cc = copy.deepcopy(scn); cc["clients"][i]["info"] = None; yield cc
+        if c.get("retry"):
+            cc = copy.deepcopy(scn); del cc["clients"][i]["retry"]; yield cc
     if scn["server_delay"]:
         cc = copy.deepcopy(scn); cc["server_delay"] = 0; yield cc
     if scn.get("flush_delay"):
@@ -164,12 +170,22 @@ def execute(scn: dict) -> dict:
             if c["start"]:
                 await anyio.sleep(ticks(c["start"]))
             if c["kind"] == "real":
+                sup, pref = list(c["supported"]), c["preferred"]
+                if c.get("retry"):
+                    try:
+                        await ini.send_initialize(s2c_recv, c2s_send, timeout=ticks(4), supported_versions=sup, preferred_version=pref)
+                        st["first_attempt"] = "answered-in-time"
+                    except TimeoutError:
+                        st.setdefault("retried", []).append(i)
+                    except BaseException:  # noqa
+                        pass
+                    sup, pref = list(c["retry"]["supported"]), c["retry"]["preferred"]
                 try:
-                    res = await ini.send_initialize(s2c_recv, c2s_send, timeout=5.0, supported_versions=list(c["supported"]),
-                                                    preferred_version=c["preferred"])
+                    res = await ini.send_initialize(s2c_recv, c2s_send, timeout=5.0, supported_versions=sup, preferred_version=pref)
                     st["outcomes"][i] = ("ok", str(res.protocolVersion))
                 except BaseException as e:  # noqa
                     st["outcomes"][i] = ("raise", e)
+                st.setdefault("final_lists", {})[i] = sup
             else:
                 for n in range(2 if c.get("second") else 1):
                     params = {"capabilities": {}}
@@ -278,7 +294,16 @@ def execute(scn: dict) -> dict:
         if o is None:
             V("end-to-end", "no-outcome", f"client {i} never finished")
         elif o[0] == "ok":
-            if o[1] not in c["supported"] or o[1] not in SUPPORTED_VERSIONS:
+            mine = [a for a in st["answers"] if a["client"] == i and a.get("response") and "result" in a["response"]]
+            if i in st.get("retried", []) and mine:
+                probe("retry_after_client_timeout")
+                last = mine[-1]["response"]["result"].get("protocolVersion")
+                if o[1] != last:
+                    V("end-to-end", "client-and-server-disagree", f"client {i} retried after a timeout and believes it agreed on {o[1]!r}, but the server answered "
+                                                                  f"{last!r} to that request (and recorded it); answers to this client: "
+                                                                  f"{[a['response']['result'].get('protocolVersion') for a in mine]}")
+            cl = st.get("final_lists", {}).get(i, c["supported"])
+            if o[1] not in cl or o[1] not in SUPPORTED_VERSIONS:
                 V("end-to-end", "agreed-on-unsupported", f"client {i} (supports {c['supported']}) and the server agreed on {o[1]!r}, which "
                                                        f"{'the server' if o[1] not in SUPPORTED_VERSIONS else 'the client'} does not support")
             proposed = c["preferred"] if (c["preferred"] and c["preferred"] in c["supported"]) else c["supported"][0]
